@@ -53,3 +53,34 @@ Theorem C10_joint_decisions : forall c0 c1 ack,
 Proof. exact joint_committed_min. Qed.
 Print Assumptions C10_joint_decisions.
 
+
+(* ---- protocol level: a joint configuration needs both majorities (Spec/Safety.v) ----
+   The protocol theorems of C01 / C04 / C11 are stated for a configuration with incoming voters [vs]
+   and outgoing voters [vo] ([] when the configuration is not joint).  A quorum is a strict majority
+   of [vs] and, when [vo] is not empty, of [vo] as well; with that notion of quorum every election
+   and every commit of the protocol, and therefore State Machine Safety, Leader Completeness and
+   ReadIndex, hold in a joint configuration as they do in a simple one.  (The configuration is
+   static within one instance of the theorems; the transitions between configurations are covered
+   node-locally by the theorems above and by the monitors.) *)
+From RaftV Require Safety SafetyJointEx.
+
+Theorem C10_joint_quorum_is_both_majorities : forall vs vo f,
+  Safety.majority vs vo f <-> Safety.maj1 vs f /\ (vo = [] \/ Safety.maj1 vo f).
+Proof. exact Safety.majority_spec. Qed.
+Print Assumptions C10_joint_quorum_is_both_majorities.
+
+Theorem C10_state_machine_safety_in_joint_configuration : forall vs vo p m1 m2 j x y,
+  Safety.areach vs vo p -> In (m1, j, x) (snd p) -> In (m2, j, y) (snd p) -> x = y.
+Proof. exact Safety.state_machine_safety. Qed.
+Print Assumptions C10_state_machine_safety_in_joint_configuration.
+
+(* not vacuous, and the second half matters: with incoming voters {1,2,3} and outgoing voters
+   {1,4,5}, the votes of 1 and 2 are no quorum, those of 1, 2 and 4 are; an execution in which node 1
+   leads and commits on such quorums and two nodes hand out the committed entry *)
+Theorem C10_joint_nonvacuous :
+  (~ Safety.majority SafetyJointEx.vin SafetyJointEx.vout (fun q => N.eqb q 1 || N.eqb q 2) /\
+   Safety.majority SafetyJointEx.vin SafetyJointEx.vout (fun q => N.eqb q 1 || N.eqb q 2 || N.eqb q 4)) /\
+  exists p, Safety.areach SafetyJointEx.vin SafetyJointEx.vout p /\
+            In (1, 0%nat, (1, 7)) (snd p) /\ In (4, 0%nat, (1, 7)) (snd p).
+Proof. exact (conj SafetyJointEx.joint_needs_both_halves SafetyJointEx.safety_joint_nonvacuous). Qed.
+Print Assumptions C10_joint_nonvacuous.
